@@ -119,7 +119,13 @@ def second_virial(PRISM, extrapolate=True):
     return B2
 
 
+import os as _os
+_R4 = (4,) if _os.environ.get('PYVC_TIER') == 'thorough' else ()      # the thorough tier adds rank 4
+
+
 def _cases(ranks, flags):
+    ranks = tuple(ranks) + _R4
+
     def gen():
         for n in ranks:
             for fl in flags:
@@ -293,7 +299,7 @@ def _chi_post(f, args, res):
 
 @cases(chi)
 def _chi_cases():
-    for n in (1, 2, 3):
+    for n in (1, 2, 3) + _R4:
         for ex in (True, False):
             def build(f, n=n, ex=ex):
                 return dict(PRISM=mk_PRISM(f, n), extrapolate=ex)
